@@ -4,6 +4,7 @@ import (
 	"bytes"
 	"math"
 	"strings"
+	"time"
 
 	"github.com/mithrandie/csvq/lib/option"
 	"github.com/mithrandie/csvq/lib/parser"
@@ -86,7 +87,7 @@ func (values SortValues) Serialize(buf *bytes.Buffer) {
 		case FloatType:
 			serializeFloat(buf, value.Float64ToStr(val.Float, false))
 		case DatetimeType:
-			serializeDatetimeFromUnixNano(buf, val.Datetime)
+			serializeDatetime(buf, val.Datetime)
 		case StringType:
 			serializeString(buf, val.String)
 		}
@@ -100,7 +101,7 @@ type SortValue struct {
 
 	Integer  int64
 	Float    float64
-	Datetime int64
+	Datetime time.Time
 	String   string
 }
 
@@ -127,7 +128,7 @@ func NewSortValue(val value.Primary, flags *option.Flags) *SortValue {
 	} else if dt := value.ToDatetime(val, flags.DatetimeFormat, flags.GetTimeLocation()); !value.IsNull(dt) {
 		t := dt.(*value.Datetime).Raw()
 		sortValue.Type = DatetimeType
-		sortValue.Datetime = t.UnixNano()
+		sortValue.Datetime = t
 		value.Discard(dt)
 	} else if b := value.ToBoolean(val); !value.IsNull(b) {
 		sortValue.Type = BooleanType
@@ -208,10 +209,10 @@ func (v *SortValue) Less(compareValue *SortValue) ternary.Value {
 	case DatetimeType:
 		switch compareValue.Type {
 		case DatetimeType:
-			if v.Datetime == compareValue.Datetime {
+			if v.Datetime.Equal(compareValue.Datetime) {
 				return ternary.UNKNOWN
 			}
-			return ternary.ConvertFromBool(v.Datetime < compareValue.Datetime)
+			return ternary.ConvertFromBool(v.Datetime.Before(compareValue.Datetime))
 		}
 	case StringType:
 		switch compareValue.Type {
@@ -248,7 +249,7 @@ func (v *SortValue) EquivalentTo(compareValue *SortValue) bool {
 	case DatetimeType:
 		switch compareValue.Type {
 		case DatetimeType:
-			return v.Datetime == compareValue.Datetime
+			return v.Datetime.Equal(compareValue.Datetime)
 		}
 	case BooleanType:
 		switch compareValue.Type {
